@@ -1241,7 +1241,8 @@ class BaseGaussianState(BaseState):
             if cov[0, 1] == 0.0:
                 phi = 0
             else:
-                phi = -np.arcsin(2 * cov[0, 1] / np.sqrt((tr - 2) * (tr + 2)))
+                # rounding can push the argument marginally outside [-1, 1] (squeezing phase pi/2)
+                phi = -np.arcsin(np.clip(2 * cov[0, 1] / np.sqrt((tr - 2) * (tr + 2)), -1, 1))
 
             res.append((r, phi))
 
